@@ -77,6 +77,11 @@ const PROGRAMS: &[(&str, &str, &str, &str)] = &[
      "(define c8 0) (define (thrice x) (* 3 x))",
      "((lambda (a) (set! c8 (+ c8 a)) (define-syntax thrice (syntax-rules () ((_ x) (quote hijacked)))) (set! c8 (+ c8 (thrice a)))) 2)",
      "c8 (thrice 4)"),
+    // a form that carries a sizeable literal: when it fails (at compile time in particular) the literal is garbage
+    ("literal-data",
+     "(define c9 0)",
+     "(begin (set! c9 (+ c9 (length (quote (\"s0\" (v0 0) \"s1\" (v1 1) \"s2\" (v2 2) \"s3\" (v3 3) \"s4\" (v4 4) \"s5\" (v5 5) \"s6\" (v6 6) \"s7\" (v7 7) \"s8\" (v8 8) \"s9\" (v9 9) \"s10\" (v10 10) \"s11\" (v11 11) \"s12\" (v12 12) \"s13\" (v13 13) \"s14\" (v14 14) \"s15\" (v15 15) \"s16\" (v16 16) \"s17\" (v17 17) \"s18\" (v18 18) \"s19\" (v19 19)))))) (if (> c9 0) (set! c9 (+ c9 1)) 'no))",
+     "c9"),
     ("let-family",
      "(define c6 '())",
      "(let* ((a 1) (b (+ a 1))) (letrec ((ev? (lambda (n) (if (= n 0) #t (od? (- n 1))))) (od? (lambda (n) (if (= n 0) #f (ev? (- n 1)))))) (set! c6 (cons (list a b (ev? 4)) c6)) (cond ((ev? b) (set! c6 (cons 'even c6)) 'e) (else 'o))))",
@@ -232,6 +237,8 @@ fn replace(c: &Cell, path: &[usize], with: &Cell) -> Cell {
 
 struct St {
     pair: Option<(Impl, crate::refscheme::Machine)>,
+    /// a second VM that sees the same session through the sliced entry point (budget 7)
+    sliced: Option<Impl>,
     used: u32,
     serial: u64,
     baseline_trace: String,
@@ -284,10 +291,36 @@ fn build_session(case: &Case, serial: u64) -> (Vec<String>, usize, usize) {
         texts.push(format!("{:#}", f));
     }
     texts.push("(pf 3)".into());
+    // directly after a run-time failure: a form that fails to compile and a text that cannot be read have no
+    // stack trace of their own (and must not show the previous one); then the same run-time failure again
+    texts.push("(if)".into());
+    texts.push("(pf 3)".into());
+    texts.push("(list 1 (+ 2 3)".into());
+    texts.push("(pf 3)".into());
     for f in parse_forms(&fix(probes)).unwrap() {
         texts.push(format!("{:#}", f));
     }
     texts.push("(list 'still 'works)".into());
+    // a later evaluation introduces a global the VM has never seen, then the surviving code runs again: the
+    // program's expression forms (not its definitions) are repeated, the faulted one included, then the probes
+    texts.push(fix("(define zfresh@ 'fresh)"));
+    for (i, f) in pforms.iter().enumerate() {
+        if f.car().and_then(|h| h.as_symbol().map(|s| s == "define")).unwrap_or(false) {
+            continue;
+        }
+        if i == case.form {
+            if let Some(p) = &case.path {
+                let fault = parse_forms(FAULTS[case.fault].1).unwrap().remove(0);
+                texts.push(format!("{:#}", replace(f, p, &fault)));
+            }
+        } else {
+            texts.push(format!("{:#}", f));
+        }
+    }
+    for f in parse_forms(&fix(probes)).unwrap() {
+        texts.push(format!("{:#}", f));
+    }
+    texts.push(fix("zfresh@"));
     (texts, first_program_form, first_probe)
 }
 
@@ -303,7 +336,10 @@ fn run_case(st: &mut St, acc: &mut Acc, case: &Case) {
         let f = parse_forms(PF).unwrap().remove(0);
         let _ = im.eval(&f);
         let _ = m.eval_form(&f);
+        let mut ims = Impl::new();
+        let _ = ims.eval(&f);
         st.pair = Some((im, m));
+        st.sliced = Some(ims);
         st.used = 0;
     }
     st.used += 1;
@@ -329,11 +365,22 @@ fn run_case(st: &mut St, acc: &mut Acc, case: &Case) {
                         failure = Some(("read-fault-not-reported".into(), json!({"form_index": i, "observed": r.show()})));
                         break;
                     }
+                    // text that cannot be read evaluates nothing: it has no stack trace, in particular not an earlier one
+                    if im.vm.last_stacktrace().is_some() {
+                        failure = Some(("stale-stack-trace".into(), json!({"form_index": i, "form": t, "observed_trace": format!("{:?}", im.vm.last_stacktrace())})));
+                        break;
+                    }
                     continue;
                 }
             };
+            // a form the model rejects while analysing it (before evaluating anything) fails at compile time
+            let fails_to_compile = matches!(m.desugar(&form), Err(crate::refscheme::Stop::Fail(crate::refscheme::Fail::Syntax(_))));
             let mr = m.eval_form(&form);
             let ir = im.eval(&form);
+            if fails_to_compile && matches!(ir, ImplOut::Error(_, _)) && im.vm.last_stacktrace().is_some() {
+                failure = Some(("stale-stack-trace".into(), json!({"form_index": i, "form": t, "note": "a form that fails to compile has no stack trace", "observed_trace": format!("{:?}", im.vm.last_stacktrace())})));
+                break;
+            }
             if matches!(ir, ImplOut::Error(_, _)) {
                 any_failed = true;
             }
@@ -342,6 +389,7 @@ fn run_case(st: &mut St, acc: &mut Acc, case: &Case) {
                     acc.count("excluded_by_model", 1);
                     // the model left its grammar: nothing is claimed for the rest of the session
                     st.pair = None;
+                    st.sliced = None;
                     return;
                 }
                 Ok(true) => {}
@@ -349,6 +397,18 @@ fn run_case(st: &mut St, acc: &mut Acc, case: &Case) {
                     failure = Some((
                         if matches!(ir, ImplOut::Panic(_)) { "panic".into() } else { "later-result-differs".into() },
                         json!({"form_index": i, "form": t, "expected": show_model(m, &mr), "observed": ir.show()}),
+                    ));
+                    break;
+                }
+            }
+            // the same form, in a second VM, through prepare_eval + run_count(7): same outcome, same stack trace
+            if let Some(ims) = st.sliced.as_mut() {
+                let irs = ims.eval_sliced(&form, 7, 2_000_000);
+                let (ta, tb) = (format!("{:?}", im.vm.last_stacktrace()), format!("{:?}", ims.vm.last_stacktrace()));
+                if irs.show() != ir.show() || ta != tb {
+                    failure = Some((
+                        if matches!(irs, ImplOut::Panic(_)) { "panic".into() } else { "sliced-session-differs".into() },
+                        json!({"form_index": i, "form": t, "uninterrupted": ir.show(), "sliced_budget_7": irs.show(), "trace_uninterrupted": ta, "trace_sliced": tb}),
                     ));
                     break;
                 }
@@ -378,12 +438,13 @@ fn run_case(st: &mut St, acc: &mut Acc, case: &Case) {
         detail["session"] = json!([PF, texts.join("\n")]);
         acc.violation(Violation { key, class: Some(class), observed, detail });
         st.pair = None;
+        st.sliced = None;
     }
 }
 
 /// Resource oracle: after k consecutive failures, sp, stack capacity and live heap are those after few.
 fn resources(acc: &mut Acc, case: &Case, k_small: u32, k_large: u32) {
-    let measure = |k: u32| -> Option<(usize, usize, usize)> {
+    let measure = |k: u32| -> Option<(usize, usize, usize, usize)> {
         let mut c = case.clone();
         c.repeat = k;
         let (texts, _, _) = build_session(&c, 1);
@@ -399,9 +460,11 @@ fn resources(acc: &mut Acc, case: &Case, k_small: u32, k_large: u32) {
         for f in parse_forms(PROGRAMS[case.program].1).unwrap() {
             let _ = im.eval(&f);
         }
+        // heap capacity as the session left it (before the forced collection below): failures must not make it grow
+        let capacity = im.vm.verif_heap().capacity();
         im.vm.verif_collect_now();
         let heap = im.vm.verif_heap();
-        Some((im.vm.verif_stack().get_sp(), im.vm.verif_stack().len(), heap.capacity() - heap.verif_free_list().len()))
+        Some((im.vm.verif_stack().get_sp(), im.vm.verif_stack().len(), heap.capacity() - heap.verif_free_list().len(), capacity))
     };
     acc.evals += 2;
     let (a, b) = (measure(k_small), measure(k_large));
@@ -412,13 +475,13 @@ fn resources(acc: &mut Acc, case: &Case, k_small: u32, k_large: u32) {
     if let (Some(a), Some(b)) = (a, b) {
         acc.nontrivial += 1;
         // live heap may differ by the few cells of interned literals; capacity and sp must be equal
-        if a.0 != b.0 || a.1 != b.1 || b.2 > a.2 + 64 {
+        if a.0 != b.0 || a.1 != b.1 || b.2 > a.2 + 64 || b.3 != a.3 {
             acc.violation(Violation {
                 key: format!("resources|{}|{}|{:?}", PROGRAMS[case.program].0, fault_name, case.path),
                 class: Some(format!("{}/{}/accumulates", PROGRAMS[case.program].0, fault_name)),
                 observed: "failures-accumulate".into(),
                 detail: json!({"session": [build_session(case, 1).0.join("\n")], "note": format!("the faulted form repeated {} vs {} times", k_small, k_large),
-                    "sp_stackcapacity_liveheap_after_few": [a.0, a.1, a.2], "after_many": [b.0, b.1, b.2]}),
+                    "sp_stackcapacity_liveheap_heapcapacity_after_few": [a.0, a.1, a.2, a.3], "after_many": [b.0, b.1, b.2, b.3]}),
             });
         }
     }
@@ -461,7 +524,7 @@ pub fn run(ctx: &Ctx) -> i32 {
     let a1 = par_fold(
         n,
         8,
-        || St { pair: None, used: 0, serial: 0, baseline_trace: base.clone() },
+        || St { pair: None, sliced: None, used: 0, serial: 0, baseline_trace: base.clone() },
         |st, acc, i| {
             run_case(st, acc, &cases[i as usize]);
             if i % 211 == 0 {
